@@ -58,8 +58,8 @@ class Algebra:
             self._axioms()
         self.Str = z3.DeclareSort("Str")
         self.f_depth = z3.Function("depth", self.Sim, z3.IntSort())
-        self.TB = 4             # small scope: pre-state times range over 0..TB-1
-        self.time_terms = []    # small scope: time terms created while executing (quantifier instances)
+        self.TB = 10            # small scope: all times range over 0..TB-1 (assumed for every time term created)
+        self.time_terms = []    # (unused for quantifier expansion since the range is fixed)
 
     # ---- operations (work in both scopes)
     def tlen(self, t):
@@ -160,8 +160,7 @@ class Algebra:
 
     def forall_times(self, f, name="x"):
         if self.small:
-            dom = list(range(self.TB)) + list(self.time_terms)
-            return S.And(*[f(x) for x in dom])
+            return S.And(*[f(x) for x in range(self.TB)])
         x = z3.Const(f"{name}!{next(_q)}", self.T)
         body = f(x)
         if body is True:
@@ -328,6 +327,8 @@ class Model:
 
     def __init__(self, session, scope="proof", nsims=3):
         self.s = session
+        self._cur_p = None
+        self._ranged = set()
         self.alg = Algebra(scope, nsims)
         a = self.alg
         Sim, T, D, I, B, R = a.Sim, a.T, a.D, z3.IntSort(), z3.BoolSort(), z3.RealSort()
@@ -384,6 +385,8 @@ class Model:
         a = self.alg
         a.time_terms = []
         self.small_bounds = []
+        self._cur_p = p
+        self._ranged = set()
         h = {}
         if not a.small:
             for k, srt in self.heap_sorts.items():
@@ -408,7 +411,7 @@ class Model:
                     arr = z3.K(a.Sim, v) if arr is None else z3.Store(arr, c, v)
                     if k in ("P", "CSv", "LS", "OT", "NSSv", "BGv"):
                         a.time_terms.append(v)
-                        self.small_bounds.append(z3.And(v >= (-1 if k == "LS" else 0), v <= 8))
+                        self.small_bounds.append(z3.And(v >= (-1 if k == "LS" else 0), v < a.TB))
                 h[k] = arr
         for c in a.sims:
             for x in range(a.TB):
@@ -417,7 +420,7 @@ class Model:
             for b in a.sims:
                 for vv in (self.TAv, self.IDv, self.SUv, self.SWv):
                     self.small_bounds.append(z3.And(vv(c, b) >= 0, vv(c, b) <= 3))
-        self.small_bounds.append(z3.And(self.until >= 0, self.until <= 8))
+        self.small_bounds.append(z3.And(self.until >= 0, self.until < a.TB))
         return h
 
     def min_of(self, it, ns):
@@ -431,7 +434,7 @@ class Model:
         a = self.alg
         if not a.small:
             return
-        dom = list(range(a.TB)) + [t for t in a.time_terms]
+        dom = list(range(a.TB))
         for c in a.sims:
             ns = h["NS"][c]
             m = self.minT(ns)
@@ -688,8 +691,9 @@ class Model:
 
     def T_(self, t):
         if self.alg.small:
-            if not any(t is x or (is_z3(t) and is_z3(x) and t.eq(x)) for x in self.alg.time_terms) and not isinstance(t, int):
-                self.alg.time_terms.append(t)
+            if is_z3(t) and self._cur_p is not None and t.get_id() not in self._ranged:
+                self._ranged.add(t.get_id())
+                self._cur_p.assume(z3.And(t >= -1, t < self.alg.TB))
             return TInt(t)
         return t
 
@@ -991,7 +995,7 @@ class Model:
                 if fields is None or k in fields:
                     h[k] = z3.Const(f"{tag}{n}.{k}", srt)
             return
-        dom = list(range(a.TB)) + list(a.time_terms)
+        dom = list(range(a.TB))
         for k, srt in self.heap_sorts.items():
             if fields is not None and k not in fields:
                 continue
@@ -1012,7 +1016,7 @@ class Model:
                     v = z3.Const(f"{tag}{n}.{k}[{c}]", rng)
                     arr = z3.K(a.Sim, v) if arr is None else z3.Store(arr, c, v)
                     if k in ("P", "CSv", "LS", "OT", "NSSv", "BGv"):
-                        a.time_terms.append(v)
+                        p.assume(z3.And(v >= (-1 if k == "LS" else 0), v < a.TB))
                 h[k] = arr
         self.small_sync(p, h)
 
@@ -1115,7 +1119,7 @@ class Model:
                     targets.add(x.value.func.value.id)
                 elif isinstance(x, ast.Expr) and isinstance(x.value, ast.Constant):
                     continue
-                elif isinstance(x, ast.Pass):
+                elif isinstance(x, (ast.Pass, ast.Continue)):
                     continue
                 else:
                     return False
@@ -1135,23 +1139,36 @@ class Model:
         p = it.p
 
         def walk(stmts, guard):
+            """-> the condition under which control falls through the end of stmts (`continue` ends
+            the iteration); appends are collected with the condition under which they are reached"""
             for x in stmts:
+                if guard is False:
+                    return False
                 if isinstance(x, ast.If):
                     p.solver.push()
                     saved = len(p.pc)
                     cv = it.truth(it.eval(x.test, sub))
                     cvz = cv if is_z3(cv) else z3.BoolVal(bool(cv))
                     p.assume(cvz)
-                    walk(x.body, S.And(guard, cv))
+                    g1 = walk(x.body, S.And(guard, cv))
                     del p.pc[saved:]
                     p.solver.pop()
                     p.solver.push()
                     p.assume(z3.Not(cvz))
-                    walk(x.orelse, S.And(guard, S.Not(cv)))
+                    g2 = walk(x.orelse, S.And(guard, S.Not(cv)))
                     del p.pc[saved:]
                     p.solver.pop()
+                    guard = S.Or(g1, g2)
+                    if is_z3(guard):
+                        guard = simp(guard)
+                    # what follows is evaluated under the fall-through condition
+                    if guard is not True and guard is not False:
+                        p.assume(guard)
+                elif isinstance(x, ast.Continue):
+                    return False
                 elif isinstance(x, ast.Expr) and isinstance(x.value, ast.Call):
                     collected.append((x.value.func.value.id, guard, it.eval(x.value.args[0], sub)))
+            return guard
 
         p.solver.push()
         saved_pc = len(p.pc)
